@@ -153,6 +153,17 @@ package keystore
 //@   ensures result != nil ==> bsame(b)
 //@   at "return b.Put(key, pubKey)" assert[C12] len(key) == 8 && le32(key, 0) == branch && le32(key, 4) == index
 
+// reader side: every key of the public-key bucket has the 8-byte form the writer above gives it (bucket invariant, stated
+// as a precondition: putEncryptedPubKey is the only writer); each record read is decoded with the writer's layout
+//@ func fetchEncryptedPubKey
+//@   props C12 C03 C19
+//@   requires b != nil
+//@   requires forall qs_ string :: has(bmap(b), qs_) ==> len(qs_) == 8
+//@   loop#1 invariant forall qi_ int :: 0 <= qi_ && qi_ < len(entries) ==> entries[qi_] != nil && len(entries[qi_].Key) == 8
+//@   loop#1 invariant fresh(pks)
+//@   at "pkp := &pubkeyAndPath{..." assert len(key) == 8
+//@   at "pks = append(pks, pkp)" assert[C12] pkp.branch == le32(key, 0) && pkp.index == le32(key, 4) && sameSlice(pkp.pubkeyEnc, entry.Value)
+
 // ---- C19/C08: representation invariant of the keystore manager -- the keystore in use is one of the managed ones.
 // DeleteKeystore keeps it (the removed keystore is not "in use" afterwards); the in-current lookups rely on it when
 // they index the managed map with the current keystore's name.
